@@ -115,6 +115,10 @@ static void vf_free(void* p) { if (p) ledger_del(p); free(p); }
 
 #include "tests/blob.h"
 
+// hook of the -DYARA_VERIF build: every arena allocation takes the growth path (one yr_realloc each),
+// so that every arena write of the compiler / VM becomes a fault position
+extern int yr_verif_arena_always_move;
+
 // ------------------------------------------------------------------ keys
 #define MAXKV 64
 typedef struct { char* k; char* v; } KV;
@@ -444,9 +448,11 @@ int main(int argc, char** argv)
     if (!is_init && !initialised) { yr_initialize(); initialised = 1; }
     load_data();
     g_fail_k = geti("k", 0); g_mode = geti("mode", 1);
+    yr_verif_arena_always_move = (int) geti("mv", 0);
     unsigned long live0 = ledger_live, bytes0 = ledger_bytes, seq0 = alloc_seq;
     char rc[160] = "-", res[1400] = "-";
     run_case(kind, rc, res, sizeof rc);
+    yr_verif_arena_always_move = 0;
     long N = g_count, inj = g_injected;
     void* site[NFRAMES]; int nsite = g_nsite; memcpy(site, g_site, sizeof site);
     long leak_blocks = (long) ledger_live - (long) live0, leak_bytes = (long) ledger_bytes - (long) bytes0;
